@@ -204,7 +204,7 @@ def run(ctx):
     n = ctx.scale(400, 6000)
     scripts = ["honest", "flip-client-hello", "flip-server-hello", "foreign-root", "resigned", "other-session", "wrong-token",
                "other-key-challenge", "dup-reorder", "tofu", "pinned-other", "trunc-ext", "early-app", "no-answer", "stacked", "early-send",
-               "late-hello", "rekey-attempt"]
+               "late-hello", "rekey-attempt", "lookalike"]
     cases, outputs, logs = [], {}, {}
     for i in range(n):
         script = scripts[i % len(scripts)] if i < 3 * len(scripts) else rng.choice(scripts + ["flip-server-hello"] * 4)
